@@ -393,6 +393,38 @@ fn dispatch(f: &[&str]) -> String {
             _ => "BADCASE".into(),
         },
         "lx" | "ef" | "bi" => internal(f),
+        // sq <src b|r> <kind:hexlit>,<kind:hexlit>,...   (kind = d | s): ONE Deserializer over the literals joined by a space, driven item by item
+        // with f64::deserialize / f32::deserialize; a failing item is swallowed (as a lenient wrapper would) and the next one is read from the
+        // same Deserializer -> per item `ok <bits>` | `err <code>`, joined by ','
+        "sq" if f.len() == 3 => {
+            let mut text: Vec<u8> = vec![];
+            let mut kinds = vec![];
+            for it in f[2].split(',') {
+                let (k, h) = match it.split_once(':') { Some(x) => x, None => return "BADCASE".into() };
+                let lit = match unhex(h) { Some(d) => d, None => return "BADCASE".into() };
+                if !text.is_empty() { text.push(b' '); }
+                text.extend_from_slice(&lit);
+                kinds.push(k == "s");
+            }
+            fn drive<'de, R: serde_json::de::Read<'de>>(mut de: serde_json::Deserializer<R>, kinds: &[bool]) -> String {
+                use serde::Deserialize;
+                let mut out = vec![];
+                for single in kinds {
+                    let r = if *single {
+                        f32::deserialize(&mut de).map(|x| format!("ok {:08x}", x.to_bits()))
+                    } else {
+                        f64::deserialize(&mut de).map(|x| format!("ok {:016x}", x.to_bits()))
+                    };
+                    out.push(match r { Ok(s) => s, Err(e) => format!("err {}", code_name(&e)) });
+                }
+                out.join(",")
+            }
+            if f[1].starts_with('r') {
+                drive(serde_json::Deserializer::from_reader(rw::ChunkReader::new(&text, 1)), &kinds)
+            } else {
+                drive(serde_json::Deserializer::from_slice(&text), &kinds)
+            }
+        }
         _ => "BADCASE".into(),
     }
 }
